@@ -130,6 +130,37 @@ def run(ctx):
                 yv = model_num(m, y) if m is not None else 1.5
                 ctx.report_counterexample(nm, "astsym-z3", "c16", "r_pair", [an, bn, opname, xv, yv], {}, {})
 
+    # operands are values: * and / must not modify them (a generic SI value used twice must give the same result twice)
+    import copy as _copy
+    fails, ncalls = [], 0
+    for Bq in Q:
+        for opname, meth in (("mul", "__mul__"), ("div", "__truediv__")):
+            p = A.Path()
+            p, s1 = make(p, U.SI, x, "m")
+            p, obb = make(p, Bq, y)
+            snap = {k: _copy.deepcopy(v) for k, v in p.heap[s1.oid].items() if not A.is_sym(v)}
+            snapb = {k: _copy.deepcopy(v) for k, v in p.heap[obb.oid].items() if not A.is_sym(v)}
+            ncalls += 1
+            try:
+                outs = eng.call_method(p, s1, meth, [obb], {})
+            except A.Unsupported as e:
+                fails.append((Bq.__name__, opname, "unsupported: " + str(e)))
+                continue
+            for q, o in outs:
+                if o[0] != "return":
+                    continue
+                now = {k: v for k, v in q.heap[s1.oid].items() if not A.is_sym(v)}
+                nowb = {k: v for k, v in q.heap[obb.oid].items() if not A.is_sym(v)}
+                if now != snap or nowb != snapb:
+                    fails.append((Bq.__name__, opname, "operand modified"))
+    nm = "flow/operands are not modified: after SI(x,'m') * Q(y) and SI(x,'m') / Q(y) both operands still carry their signature and unit (all 41 right-hand types)"
+    if not fails:
+        ob(nm, "pass", f"{ncalls} operations", ncalls)
+    elif fails[0][2].startswith("unsupported"):
+        ob(nm, "inconclusive", str(fails[0]), ncalls)
+    else:
+        ctx.report_counterexample(nm, "astsym-z3", "c16", "r_reuse", [fails[0][0], fails[0][1]], {}, {})
+
     # number x quantity, quantity / number, number / quantity
     k = z3.Real("k")
     fails, nqr = [], 0
